@@ -259,21 +259,40 @@ func newUniverse(cfg Config, seed uint64) *Universe {
 		u.chains[n] = c
 		u.chainByID[id] = n
 	}
-	// cross-chain ids: lengths 1..32, the second one may extend the first (prefix-related keys)
-	var prev []byte
+	// cross-chain ids, boundary classes on every seed: the k-th id of the model is
+	//   0 the EMPTY id, 1 a one-byte id, 2 an id that extends id 1 (prefix-related done keys), 3 a 32-byte id,
+	//   4 a 300-byte id (3-byte var-int length), 5.. random 2..31 bytes;
+	// with two ids the second one rotates over the classes 1, 3, 4 with the seed.
+	var one []byte
 	for k, i := range cfg.Ids {
+		class := k
+		if len(cfg.Ids) == 2 && k == 1 {
+			class = []int{1, 3, 4}[int(seed)%3]
+		}
 		var b []byte
 		for {
-			if k%2 == 1 && rng.Bool() {
-				b = append(append([]byte{}, prev...), rng.Bytes(1+rng.Intn(4))...)
-			} else {
-				b = rng.Bytes(1 + rng.Intn(32))
+			switch class {
+			case 0:
+				b = []byte{}
+			case 1:
+				b = rng.Bytes(1)
+				one = b
+			case 2:
+				if one == nil {
+					one = rng.Bytes(1)
+				}
+				b = append(append([]byte{}, one...), rng.Bytes(1+rng.Intn(3))...)
+			case 3:
+				b = rng.Bytes(32)
+			case 4:
+				b = rng.Bytes(300)
+			default:
+				b = rng.Bytes(2 + rng.Intn(30))
 			}
 			if _, dup := u.idByHex[hex.EncodeToString(b)]; !dup {
 				break
 			}
 		}
-		prev = b
 		u.ids[i] = b
 		u.idByHex[hex.EncodeToString(b)] = i
 	}
@@ -350,6 +369,7 @@ func newUniverse(cfg Config, seed uint64) *Universe {
 					if c.posa == nil {
 						h := uint32(1000 + v)
 						u.imports[k+"|true"] = &importIn{input: entrance(c.ID, h, nil, u.val.Address[:], mb, nil), signer: u.val.Address, kind: "vote"}
+						u.imports[k+"|false-relay"] = &importIn{input: entrance(c.ID, h, nil, u.outsider.Address[:], mb, nil), signer: u.outsider.Address, kind: "vote-by-outsider"}
 						if rng.Bool() {
 							u.imports[k+"|false"] = &importIn{input: entrance(c.ID, h, nil, u.outsider.Address[:], mb, nil), signer: u.outsider.Address, kind: "vote-by-outsider"}
 						} else {
@@ -515,6 +535,83 @@ type Step struct {
 	Tx  int    `json:"tx,omitempty"`
 	Acc bool   `json:"acc,omitempty"`
 	Why string `json:"why,omitempty"`
+	// relay transaction: two imports A, B through NativeCall in one transaction
+	Pre   bool  `json:"pre,omitempty"`
+	Catch bool  `json:"catch,omitempty"`
+	A     *Part `json:"a,omitempty"`
+	B     *Part `json:"b,omitempty"`
+}
+
+type Part struct {
+	S   string `json:"s"`
+	I   string `json:"i"`
+	T   string `json:"t"`
+	V   int    `json:"v"`
+	Ok  bool   `json:"ok"`
+	Acc bool   `json:"acc"`
+	Why string `json:"why,omitempty"`
+}
+
+func (p *Part) step(tx int) *Step {
+	return &Step{Act: "import", S: p.S, I: p.I, T: p.T, V: p.V, Ok: p.Ok, Tx: tx, Acc: p.Acc}
+}
+
+// ---------------------------------------------------------------- relay contract (harness-side, registered in native.Contracts)
+
+// RelayAddr hosts a contract whose method "relay" runs a script: 'L' data = PutMerkleVal(data) of its own,
+// 'I' args = NativeCall(CrossChainManager, ImportOuterTransfer, args), 'C' args = the same but an error is ignored.
+var RelayAddr = common.Address{0xfe, 0x20}
+
+type relayOp struct {
+	Op   byte
+	Data []byte
+}
+
+func relayScript(ops []relayOp) []byte {
+	b := new(bytes.Buffer)
+	for _, o := range ops {
+		b.WriteByte(o.Op)
+		putVarBytes(b, o.Data)
+	}
+	return b.Bytes()
+}
+
+func relayHandler(ns *native.NativeService) ([]byte, error) {
+	src := common.NewZeroCopySource(ns.GetInput())
+	for src.Len() > 0 {
+		op, _ := src.NextByte()
+		data, eof := src.NextVarBytes()
+		if eof {
+			return nil, fmt.Errorf("relay: truncated script")
+		}
+		switch op {
+		case 'L':
+			ns.PutMerkleVal(data)
+		case 'I', 'C':
+			if _, err := ns.NativeCall(utils.CrossChainManagerContractAddress, scom.IMPORT_OUTER_TRANSFER_NAME, data); err != nil && op == 'I' {
+				return nil, err
+			}
+		default:
+			return nil, fmt.Errorf("relay: unknown op %q", op)
+		}
+	}
+	return []byte{1}, nil
+}
+
+func init() {
+	native.Contracts[RelayAddr] = func(ns *native.NativeService) { ns.Register("relay", relayHandler) }
+}
+
+func ownLeafData(tx int) []byte { return []byte(fmt.Sprintf("relay-own-leaf-%d", tx)) }
+
+func (u *Universe) relayInput(p *Part) *importIn {
+	k := mkey(p.S, p.I, p.T, p.V)
+	if !p.Ok {
+		if in, ok := u.imports[k+"|false-relay"]; ok {
+			return in
+		}
+	}
+	return u.imports[k+fmt.Sprintf("|%v", p.Ok)]
 }
 
 type Got struct {
@@ -550,6 +647,34 @@ func (r *Run) apply(st *Step) *Got {
 		in := u.imports[mkey(st.S, st.I, st.T, st.V)+fmt.Sprintf("|%v", st.Ok)]
 		g.Kind = in.kind
 		call(ccm.ImportExTransfer, u.tx(uint32(st.Tx), in.signer), in.input)
+		if g.Err == "" && g.Panic == "" && ns != nil {
+			for _, h := range ns.GetCrossHashes() {
+				g.Leaves = append(g.Leaves, hex.EncodeToString(h[:]))
+			}
+			r.leaves = append(r.leaves, g.Leaves...)
+		}
+	case "relay":
+		a, b := u.relayInput(st.A), u.relayInput(st.B)
+		var ops []relayOp
+		if st.Pre {
+			ops = append(ops, relayOp{'L', ownLeafData(st.Tx)})
+		}
+		ops = append(ops, relayOp{'I', a.input})
+		if st.Catch {
+			ops = append(ops, relayOp{'C', b.input})
+		} else {
+			ops = append(ops, relayOp{'I', b.input})
+		}
+		g.Kind = a.kind + "+" + b.kind
+		// the relay handler is entered as the ledger would enter it (context pushed by the outer Invoke)
+		call(func(ns *native.NativeService) ([]byte, error) {
+			res, err := ns.NativeCall(RelayAddr, "relay", relayScript(ops))
+			if err != nil {
+				return nil, err
+			}
+			r, _ := res.([]byte)
+			return r, nil
+		}, u.tx(uint32(st.Tx), u.val.Address, u.outsider.Address), nil)
 		if g.Err == "" && g.Panic == "" && ns != nil {
 			for _, h := range ns.GetCrossHashes() {
 				g.Leaves = append(g.Leaves, hex.EncodeToString(h[:]))
